@@ -191,7 +191,7 @@ func spellings(v int64) []string {
 		sign + "0b" + strconv.FormatUint(a, 2),
 		sign + "0o" + strconv.FormatUint(a, 8),
 		sign + "0" + strconv.FormatUint(a, 8), // legacy octal
-		sign + "0" + dec,                       // leading zero: octal reading of the decimal digits (or invalid)
+		sign + "0" + dec,                      // leading zero: octal reading of the decimal digits (or invalid)
 		sign + "00" + dec,
 		sign + "0x0" + strconv.FormatUint(a, 16),
 		sign + "0_" + strconv.FormatUint(a, 8),
@@ -424,14 +424,16 @@ type deviation struct {
 }
 
 type world struct {
-	res     *harness.R
-	r       *rand.Rand
-	tier    string
-	verbose bool
-	p, q    string
-	val     int64
-	capTop  int64
-	poss    []position
+	res         *harness.R
+	r           *rand.Rand
+	tier        string
+	verbose     bool
+	p, q        string
+	val         int64
+	capTop      int64
+	capInterior int64
+	sigSeen     map[string]int
+	poss        []position
 
 	// grow hook state (per operation)
 	allowed int
@@ -554,6 +556,17 @@ func sigFor(sg segment, st setting, single bool, d deviation, devFalse bool) str
 	return "index-role-not-observed"
 }
 
+// capped: harness.R keeps 3 violations per signature and case; beyond that
+// only count (saves formatting the witness).
+func (w *world) capped(sig string) bool {
+	w.sigSeen[sig]++
+	if w.sigSeen[sig] > 3 {
+		w.res.Ev("violations_raw", 1)
+		return true
+	}
+	return false
+}
+
 func treatedAsIndex(sg segment, d deviation) bool {
 	if sg.index {
 		return false
@@ -582,6 +595,9 @@ func (w *world) report(usage string, pos position, key string, st setting, segs 
 	sg := segs[i]
 	single := len(segs) == 1
 	sig := sigFor(sg, st, single, d, devFalse)
+	if w.capped(sig) {
+		return treatedAsIndex(sg, d)
+	}
 	role := "name"
 	if sg.index {
 		role = fmt.Sprintf("list index %d", sg.v)
@@ -989,6 +1005,9 @@ func (w *world) prepare(s string, prefix, suffix []string) (hy hybrid, ok bool) 
 
 func (w *world) getterDeviation(op string, pos position, key string, st setting, sg segment, single bool, d deviation, devFalse bool) bool {
 	sig := sigFor(sg, st, single, d, devFalse)
+	if w.capped(sig) {
+		return treatedAsIndex(sg, d)
+	}
 	role := "name"
 	if sg.index {
 		role = fmt.Sprintf("list index %d", sg.v)
@@ -1177,6 +1196,17 @@ func hasDigit(s string) bool {
 	return false
 }
 
+// interiorLarge: some segment is a legitimate index that is large but not at
+// the boundary (m-1, m) of the setting.
+func interiorLarge(segs []segment, st setting, limit int64) bool {
+	for _, sg := range segs {
+		if sg.index && sg.v > limit && sg.v < st.m-1 {
+			return true
+		}
+	}
+	return false
+}
+
 func (w *world) runString(s string, sts []setting) (wrongIndex bool) {
 	nontrivial := hasDigit(s)
 	if _, err := strconv.ParseInt(s, 0, 64); err == nil {
@@ -1210,10 +1240,18 @@ func (w *world) runString(s string, sts []setting) (wrongIndex bool) {
 				if u == uSet && key == "" {
 					continue
 				}
-				if (u == uMap || u == uStruct) && segs[0].index && segs[0].v > w.capTop {
-					// legitimate top-level index built through Merge: quadratic in v
-					w.res.Ev("skipped_costly_top_level_index", 1)
-					continue
+				if u != uSet {
+					if segs[0].index && segs[0].v > w.capTop {
+						// legitimate top-level index built through Merge: quadratic in v
+						w.res.Ev("skipped_costly_top_level_index", 1)
+						continue
+					}
+					if interiorLarge(segs, st, w.capInterior) {
+						// a large index strictly inside the allowed range: same class as
+						// the boundary values, only exercised through the setter
+						w.res.Ev("skipped_large_interior_index", 1)
+						continue
+					}
 				}
 				dev, wi := w.builder(u, pos, key, st, segs, T, devFalse[u])
 				if dev && !st.e {
@@ -1291,10 +1329,11 @@ func (check) Run(seed int64, tier string, idx int, verbose bool) harness.Result 
 	w.p = pNames[r.Intn(len(pNames))]
 	w.q = qNames[r.Intn(len(qNames))]
 	w.val = int64(1 + r.Intn(5)) // never 7 (nameValue) and never >= 100
-	w.capTop = 1100
+	w.capTop, w.capInterior = 1100, 300
 	if tier == "thorough" {
-		w.capTop = 4096
+		w.capTop, w.capInterior = 4096, 4096
 	}
+	w.sigSeen = map[string]int{}
 	w.arm(1 << 17)
 	ucfg.VerifSetHook(w.hook)
 	defer ucfg.VerifSetHook(nil)
